@@ -164,6 +164,11 @@ func (r *replication) replicate(c *conn, req *appendReq) error {
 		var (
 			resultCh = make(chan result, 128)
 			stopCh   = make(chan struct{})
+
+			// set by writer, if it stopped after writing a request
+			// without adding its result to resultCh.
+			// must be read only after resultCh is closed
+			unaccounted bool
 		)
 		go func() {
 			defer func() {
@@ -180,6 +185,7 @@ func (r *replication) replicate(c *conn, req *appendReq) error {
 				err := r.writeAppendEntriesReq(c, req, true)
 				select {
 				case <-stopCh:
+					unaccounted = err != log.ErrNotFound // nothing is written on ErrNotFound
 					return
 				case resultCh <- result{r.nextIndex - 1, err}:
 				}
@@ -209,6 +215,11 @@ func (r *replication) replicate(c *conn, req *appendReq) error {
 				if err := c.readResp(resp, r.deadline()); err != nil {
 					return err
 				}
+			}
+			if unaccounted {
+				// its response is still to be read, otherwise subsequent
+				// responses on this conn get attributed to wrong requests
+				return c.readResp(resp, r.deadline())
 			}
 			return nil
 		}
